@@ -1,5 +1,6 @@
 // =============================================================================
-// TRUSTED PRELUDE (unit hostport): http::Uri / http::uri::Port as abstract types with accessor specs.
+// TRUSTED PRELUDE (units hostport, hosthdr): http::Uri / http::uri::Port as abstract types with accessor specs.
+// Use together with prelude/hostport_vocab.rs (the ghost attributes the accessor specs mention).
 // =============================================================================
 #[verifier::external_body]
 pub struct Uri { _p: () }
@@ -14,12 +15,8 @@ impl<T> Port<T> {
     pub fn as_u16(&self) -> (r: u16) ensures r == self.num() { unimplemented!() }
 }
 
+// ghost attributes `Uri::scheme_text()` / `Uri::port_num()`: prelude/hostport_vocab.rs (shared with unit `http`)
 impl Uri {
-    /// the scheme text, lower-cased as `http` stores it
-    pub uninterp spec fn scheme_text(&self) -> Option<&'static str>;
-    /// the explicit port of the authority
-    pub uninterp spec fn port_num(&self) -> Option<u16>;
-
     #[verifier::external_body]
     pub fn scheme_str(&self) -> (r: Option<&str>)
         ensures (r is Some) == (self.scheme_text() is Some), r is Some ==> r->0 == self.scheme_text()->0
